@@ -43,6 +43,7 @@ class BaseServer:
 
         self._binary_packet = {}
         self._ending = set()
+        self._deciding = set()
 
         if not isinstance(logger, bool):
             self.logger = logger
